@@ -49,7 +49,11 @@ RULE = ("structured generator: 1-6 users with 1-6 rows each (many single-row use
         "(records on cells 2^31 / 2^32 apart in row- and column-major order and on adjacent cells; users without rows); datasets assembled "
         "incrementally through DatasetBuilder (1-4 interaction chunks by user / by item / arbitrary rows in any order, unknown entities inserted on the "
         "fly or declared by add_entities, entities without rows declared at the start / in between / at the end, re-declarations; mostly contiguous "
-        "integer or string ids, so vocabularies are dense but stored in arrival order) for every splitter; a few batches re-run in other time zones in separate processes.  non-trivial = no "
+        "integer or string ids, so vocabularies are dense but stored in arrival order) for every splitter; time resolution and magnitude as a dimension (integer times in s / ms / us / ns since the epoch, "
+        "around 2^53, near 2^62 and negative; timestamp[s|ms|us|ns] columns incl. microsecond counts beyond 2^53; times of a user mostly ONE unit apart, in "
+        "item order, against it or arbitrary, some ties; Last* rules, temporal splitters and the time window with cut-offs next to the stored times as "
+        "integers, exactly representable floats, pandas Timestamps of nanosecond resolution (also finer than the column's unit), datetimes, ISO text); "
+        "a few batches re-run in other time zones in separate processes.  non-trivial = no "
         "error, at least 2 records, and some pair with a non-empty test side and a non-empty (or test-only) training side; distinct = hash of the case")
 
 ZONES = ["America/New_York", "Asia/Tokyo", "Pacific/Chatham", "Europe/London"]
@@ -202,8 +206,102 @@ def gen_batched_data(rng, tcol=None, epoch=False):
     return {"rows": rows, "tcol": tcol, "ids": rng.weighted([("int", 3), ("str", 2)]), "build": steps}
 
 
-def gen_holdout(rng, malformed):
-    kind = rng.choice(["SampleN", "SampleFrac", "LastN", "LastFrac"])
+# ---- time RESOLUTION and magnitude ------------------------------------------------------------------------
+# The stored times of a case are integers: for an integer column the integers themselves, for a timestamp column
+# nanoseconds since the epoch (canonical; the column may be stored as timestamp[s|ms|us|ns], `tunit`).  The
+# "most recent" clause, the cut predicates and the window are checked on these integers exactly.
+
+UNIT = {"s": 1, "ms": 10**3, "us": 10**6, "ns": 10**9}     # units per second
+
+
+def gen_resolution(rng, tcol):
+    """(tunit, base, quantum): base and quantum in canonical integers (quantum = one unit of the column)"""
+    unit = rng.weighted([("s", 1), ("ms", 2), ("us", 3), ("ns", 5)])
+    if tcol == "ts":
+        q = 10**9 // UNIT[unit]
+        base = BASE * 10**9
+        if unit == "us" and rng.chance(1, 3):
+            base = (2**53 - rng.randint(0, 6)) * q            # year 2255: the microsecond count crosses 2**53
+        elif unit in ("s", "ms") and rng.chance(1, 4):
+            base = 7_000_000_000 * 10**9                       # year 2191
+        return unit, base, q
+    where = rng.weighted([("epoch", 6), ("2^53", 3), ("2^62", 2), ("negative", 1)])
+    if where == "epoch":
+        base = BASE * UNIT[unit]                               # s 1.7e9 .. ns 1.7e18 (beyond 2**53)
+    elif where == "2^53":
+        base = 2**53 - rng.randint(0, 6)                       # the offsets straddle 2**53
+    elif where == "2^62":
+        base = 2**62 + rng.randint(0, 2**20)
+    else:
+        base = -(2**53) - rng.randint(0, 2**10)
+    return unit, base, 1
+
+
+def apply_resolution(rng, data):
+    """Re-times the rows of a dataset: fine resolution at large magnitude.  Within a user the times are a few
+    units apart (mostly ONE unit), and their order is the item order, its reverse, or arbitrary; a few ties."""
+    tcol = data["tcol"]
+    if tcol == "none":
+        return data
+    unit, base, q = gen_resolution(rng, tcol)
+    items = sorted({r[1] for r in data["rows"]})
+    rank = {i: k for k, i in enumerate(items)}
+    by_user = {}
+    for r in data["rows"]:
+        by_user.setdefault(r[0], []).append(r)
+    mode = rng.weighted([("anti", 4), ("random", 3), ("with", 1)])
+    step = rng.weighted([(1, 6), (2, 1), (3, 1), (100, 1), (257, 1), (1000, 1)])
+    for u in sorted(by_user):
+        rs = by_user[u]
+        off = rng.randint(0, 3) * step if rng.chance(1, 2) else rng.randint(0, 600)
+        m = mode if not rng.chance(1, 6) else rng.choice(["anti", "random", "with"])
+        if m == "random":
+            ks = rng.shuffle(list(range(len(rs))))
+            pos = {r[1]: k for r, k in zip(rs, ks)}
+        else:
+            srt = sorted(rs, key=lambda r: rank[r[1]], reverse=(m == "anti"))
+            pos = {r[1]: k for k, r in enumerate(srt)}
+        for r in rs:
+            k = pos[r[1]]
+            if k > 0 and rng.chance(1, 8):
+                k -= 1                                          # a tie (or the same gap twice)
+            r[3] = base + (off + k * step) * q
+    data["tunit"] = unit
+    data["tmode"] = mode
+    return data
+
+
+def gen_res_cut(rng, data):
+    """cut-off next to the stored times, in the representation of the stored times: an integer (or an exactly
+    representable float) for an integer column; a pandas Timestamp of nanosecond resolution, a datetime / ISO text
+    (microseconds) or whole UNIX seconds for a timestamp column"""
+    ts = [r[3] for r in data["rows"]] or [0]
+    q = 10**9 // UNIT[data["tunit"]] if data["tcol"] == "ts" else 1
+    v = rng.choice(ts) + rng.choice([0, 0, 0, 1, -1, 2, -2, 3]) * q
+    if rng.chance(1, 12):
+        v = min(ts) - 5 * q if rng.chance(1, 2) else max(ts) + 5 * q
+    if data["tcol"] != "ts":
+        c = {"k": "num", "v": common.fjson(Fraction(v))}
+        if rng.chance(1, 3):
+            c = {"k": "num", "v": common.fjson(Fraction(float(v))), "float": True}      # the nearest binary64, exactly
+        return c
+    if q > 1 and rng.chance(1, 4):
+        v += rng.choice([1, q // 2, q - 1])                    # finer than the column's unit
+    k = rng.weighted([("pts", 6), ("dt", 1 if v % 1000 == 0 and v >= 0 else 0), ("iso", 1 if v % 1000 == 0 and v >= 0 else 0), ("num", 1)])
+    if k == "num":
+        v = (v // 10**9 + rng.choice([0, 1])) * 10**9          # whole UNIX seconds
+        c = {"k": "num", "v": common.fjson(Fraction(v, 10**9))}
+        if rng.chance(1, 3):
+            c["float"] = True
+        return c
+    c = {"k": k, "v": common.fjson(Fraction(v, 10**9))}
+    if k == "pts" and v % q == 0 and rng.chance(1, 3):
+        c["as"] = data["tunit"]                                # a Timestamp of the column's own unit
+    return c
+
+
+def gen_holdout(rng, malformed, kinds=None):
+    kind = rng.choice(kinds or ["SampleN", "SampleFrac", "LastN", "LastFrac"])
     h = {"kind": kind}
     if kind in ("SampleN", "LastN"):
         h["n"] = rng.weighted([(0, 2), (1, 4), (2, 3), (3, 2), (5, 1)])
@@ -223,6 +321,8 @@ def gen_holdout(rng, malformed):
 
 
 def gen_cut(rng, data, wall_ok):
+    if data.get("tunit"):
+        return gen_res_cut(rng, data)
     ts = [r[3] for r in data["rows"]] or [0]
     unit = 10**9 if data["tcol"] == "ts" else 1
     v = Fraction(rng.choice(ts), unit) + rng.choice([Fraction(0), Fraction(0), Fraction(1, 2), Fraction(-1, 2), Fraction(1), Fraction(-1), Fraction(3600)])
@@ -247,7 +347,7 @@ def gen_call(rng, kind, data, malformed, utc=True):
                 "repeats": rng.weighted([(None, 3), (0, 1), (1, 2), (2, 3), (3, 2), (4, 1)]),
                 "disjoint": rng.chance(2, 3), "test_only": rng.chance(1, 4)}
     if kind == "users":
-        h = gen_holdout(rng, malformed)
+        h = gen_holdout(rng, malformed, kinds=["LastN", "LastFrac", "LastN", "LastFrac", "SampleN", "SampleFrac"] if data.get("tunit") else None)
         if rng.chance(1, 2):
             k = rng.weighted([(0, 1 if malformed else 0), (1, 2), (2, 4), (3, 3), (nu, 2), (nu + 2, 1), (rng.randint(1, nu + 1), 3)])
             return {"fn": "crossfold_users", "k": k, "test_only": rng.chance(1, 4), "holdout": h}
@@ -269,7 +369,9 @@ def gen_call(rng, kind, data, malformed, utc=True):
             "end": gen_cut(rng, data, wall_ok) if rng.chance(2, 5) else None}
 
 
-def gen_case(rng, malformed=False, kind=None, utc=True, batched=False):
+def gen_case(rng, malformed=False, kind=None, utc=True, batched=False, res=False):
+    if res:
+        kind = kind or rng.weighted([("users", 10), ("time", 5), ("filter", 2), ("records", 1)])
     if batched:
         kind = kind or rng.weighted([("records", 8), ("users", 8), ("time", 3), ("filter", 1)])
     kind = kind or rng.weighted([("records", 6), ("users", 10), ("time", 5), ("filter", 1)])
@@ -277,8 +379,10 @@ def gen_case(rng, malformed=False, kind=None, utc=True, batched=False):
     if kind in ("time", "filter"):
         tcol = rng.weighted([("int", 5), ("ts", 5), ("none", 1 if malformed else 0)])
     data = gen_batched_data(rng, tcol, epoch=not utc) if batched else gen_data(rng, tcol, epoch=not utc)
+    if res:
+        data = apply_resolution(rng.fork("resolution"), data)
     return {"kind": kind, "data": data, "call": gen_call(rng, kind, data, malformed, utc), "seed": rng.randint(0, 2**31 - 1),
-            "style": ("batched/" if batched else "") + kind + ("/malformed" if malformed else "")}
+            "style": ("resolution/" if res else "") + ("batched/" if batched else "") + kind + ("/malformed" if malformed else "")}
 
 
 # (users, items) of the declared entity tables: the user x item grid exceeds 2**32, or lies between 2**31 and 2**32
@@ -352,6 +456,8 @@ def gen_cases(rng, tier):
         out.append(gen_big_case(rng.fork(f"space{k}")))
     for k in range(160 if tier == "quick" else 1200):
         out.append(gen_case(rng.fork(f"batched{k}"), malformed=(k % 9 == 8), batched=True))
+    for k in range(150 if tier == "quick" else 1200):
+        out.append(gen_case(rng.fork(f"resolution{k}"), malformed=(k % 11 == 10), batched=(k % 4 == 3), res=True))
     nz = 4 if tier == "quick" else 8
     per = 10 if tier == "quick" else 20
     for z in range(nz):
@@ -865,6 +971,19 @@ def counters(case, obs):
     ts = [r[3] for r in data["rows"]]
     if len(set(ts)) < len(ts) and data["tcol"] != "none":
         yield "ties-in-time"
+    if data.get("tunit"):
+        q = 10**9 // UNIT[data["tunit"]] if data["tcol"] == "ts" else 1
+        yield f"time-resolution={'timestamp' if data['tcol'] == 'ts' else 'int'}[{data['tunit']}]"
+        yield "time-magnitude" + (">=2^53" if any(abs(t // q) >= 2**53 for t in ts) else "<2^53")
+        per = {}
+        for r in data["rows"]:
+            per.setdefault(r[0], []).append((r[1], r[3] // q))
+        if any(abs(a - b) == 1 for xs in per.values() for _, a in xs for _, b in xs):
+            yield "resolution/times-of-a-user-one-unit-apart"
+        if any(a != b and float(a) == float(b) for xs in per.values() for _, a in xs for _, b in xs):
+            yield "resolution/distinct-times-of-a-user-equal-as-binary64"
+        if any(i < j and a > b for xs in per.values() for i, a in xs for j, b in xs):
+            yield "resolution/item-order-disagrees-with-time"
     n, nu = len(data["rows"]), len(lens)
     if "holdout" in call:
         h = call["holdout"]
